@@ -22,7 +22,7 @@ def run(ctx):
                              if m["reaches"] or m["proxy"] or m["returnsRef"]]
     runs = [("rwdi", False)] + ([("rwdi", "thread"), ("dbg", False)] if ctx.thorough else [])
     for cfg, san in runs:
-        exe = ctx.harness("subj_locks", cfg, flags=["-fno-access-control"], sanitize=san)
+        exe = ctx.harness("subj_locks", cfg, flags=[], sanitize=san)
         env = dict(os.environ, TSAN_OPTIONS="halt_on_error=0 report_signal_unsafe=0")
         try:
             r = subprocess.run([exe, "1" if ctx.thorough else "0", str(ctx.seed)], capture_output=True, text=True, timeout=1800, env=env)
